@@ -12,6 +12,8 @@
 //	ctr.go    ctrHunt     (key, pt, ad) searched so that the masked SIV's low 8/16/24 bits wrap inside the message
 //	ctr.go    ctrDirect   the CTR layer alone (hook VerifCtrCrypt) on IVs whose low k bits are (nearly) all ones
 //	sizes.go  sizeLoop    inputs of k·64 KiB + d, 1 MiB ± …, k·4 KiB + d bytes, sent as `@<len>:<seed>` (ops X …gen)
+//	collide.go runCollide keysets (key objects and legacy-path stub keys) in which a RAW key's ciphertext starts with another
+//	                      member's output prefix; keyset verdict = some ENABLED member's verdict = Lean wrap model
 //	replay.go replay      re-evaluates the op lines of a replay file on the implementation
 package main
 
@@ -488,4 +490,6 @@ func main() {
 	ctrHunt(o, hlib.NewRng(seed, "c08/hunt"))
 	ctrDirect(o, hlib.NewRng(seed, "c08/ctr"))
 	sizeLoop(o, hlib.NewRng(seed, "c08/sizes"))
+	// collide.go: keysets in which a RAW key's ciphertext starts with another member's output prefix
+	runCollide(o, hlib.NewRng(seed, "c08/collide"))
 }
